@@ -12,7 +12,7 @@ Proof.
 Qed.
 Lemma cgfx_bad_magic m f v : u32_at LE f 0 = Some v -> v <> CGFX_MAGIC -> read_cgfx m f = Err EBadMagic.
 Proof.
-  intros H Hv. unfold read_cgfx, cgfx_header, rd32. rewrite H. cbn [of_option bind].
+  intros H Hv. unfold read_cgfx, read_cgfx_g, cgfx_header, rd32. rewrite H. cbn [of_option bind].
   destruct (N.eqb_spec v CGFX_MAGIC) as [E|_]; [contradiction|]. reflexivity.
 Qed.
 Lemma tpl_bad_magic m f v : u32_at BE f 0 = Some v -> v <> TPL_MAGIC -> read_tpl m f = Err EBadMagic.
@@ -24,7 +24,7 @@ Qed.
 Lemma bch_no_magic m f : u32_at LE f 0 = None -> read_bch m f = Err EIo.
 Proof. intros H. unfold read_bch, bch_read_header, rd32. rewrite H. reflexivity. Qed.
 Lemma cgfx_no_magic m f : u32_at LE f 0 = None -> read_cgfx m f = Err EIo.
-Proof. intros H. unfold read_cgfx, cgfx_header, rd32. rewrite H. reflexivity. Qed.
+Proof. intros H. unfold read_cgfx, read_cgfx_g, cgfx_header, rd32. rewrite H. reflexivity. Qed.
 Lemma tpl_no_magic m f : u32_at BE f 0 = None -> read_tpl m f = Err EIo.
 Proof. intros H. unfold read_tpl, tpl_parse, rd32. rewrite H. reflexivity. Qed.
 
